@@ -24,7 +24,7 @@ def close(x, y, rel=1e-5, terms=1) -> bool:
 
 
 class RefMDP:
-    def __init__(self, kind: str, comps, tables: dict, box_low=-1.0, box_high=1.0, time_limit=None):
+    def __init__(self, kind: str, comps, tables: dict, box_low=-1.0, box_high=1.0, time_limit=None, outer=None):
         self.kind = kind
         self.comps = tuple(comps)
         self.A = int(np.prod(self.comps))
@@ -40,9 +40,16 @@ class RefMDP:
         self.poison = self.NS - 1
         self.low = np.float32(box_low)
         self.high = np.float32(box_high)
+        # `outer = (m, M)`: the environment is seen from outside a RescaleAction(m, M) — actions arrive in [m, M] and are mapped
+        # affinely onto the inner box before they are bucketed / rewarded; `low` / `high` then describe the OUTER space
+        self.outer = None
+        self.ilow, self.ihigh = self.low, self.high
+        if outer is not None:
+            self.outer = (float(outer[0]), float(outer[1]))
+            self.low, self.high = np.float32(outer[0]), np.float32(outer[1])
         width = (box_high - box_low) if np.isfinite(box_high - box_low) else 2.0
         self.scale = np.float32(self.comps[0] / width)
-        self.anchor = self.low if np.isfinite(self.low) else np.float32(self.high - 2.0)
+        self.anchor = self.ilow if np.isfinite(self.ilow) else np.float32(self.ihigh - 2.0)
         self.time_limit = time_limit  # None or int N
 
     # ----------------------------------------------------------------- actions
@@ -59,6 +66,14 @@ class RefMDP:
         x = np.asarray(action, dtype=np.float32).reshape(-1)
         return bool(np.all(x >= self.low) and np.all(x <= self.high) and np.all(np.isfinite(x)))
 
+    def inner(self, action):
+        """The action the innermost environment receives (identity unless seen through a RescaleAction)."""
+        if self.outer is None or self.kind not in ("box", "boxscalar"):
+            return action
+        m, M = self.outer
+        x = np.asarray(action, dtype=np.float32)
+        return (np.float32(self.ilow) + (x - np.float32(m)) * np.float32((float(self.ihigh) - float(self.ilow)) / (M - m))).astype(np.float32)
+
     def decode(self, action) -> tuple[int, bool]:
         """Joint action index of an action as the environment receives it, and legality."""
         if self.kind == "discrete":
@@ -72,8 +87,8 @@ class RefMDP:
             for j, nj in enumerate(self.comps):
                 a = a * nj + min(max(int(c[j]), 0), nj - 1)
             return a, ok
-        x = np.asarray(action, dtype=np.float32).reshape(-1)
-        ok = self.in_bounds(x)
+        ok = self.in_bounds(np.asarray(action, dtype=np.float32).reshape(-1))
+        x = np.asarray(self.inner(action), dtype=np.float32).reshape(-1)
         with np.errstate(invalid="ignore", over="ignore"):
             b = np.floor((x - self.anchor) * self.scale)
         a = 0
@@ -117,7 +132,7 @@ class RefMDP:
             return POISON_REWARD
         r = float(self.rew[s, a, s2])
         if self.kind in ("box", "boxscalar"):
-            r += float(self.rew_w[s]) * float(np.sum(np.asarray(action, dtype=np.float32).astype(np.float64)))
+            r += float(self.rew_w[s]) * float(np.sum(np.asarray(self.inner(action), dtype=np.float32).astype(np.float64)))
         return r
 
     def flags(self, s2: int, ep_step: int) -> tuple[bool, bool]:
